@@ -34,6 +34,8 @@ pub struct TlsCase {
     pub close_notify: bool,
     /// replaces the plaintext the client sends inside the TLS session (malformed-input workloads)
     pub app_override: Option<Vec<u8>>,
+    /// (sequence id of the SSLRequest, sequence id of the handshake response inside TLS); (1, 2) for ordinary clients
+    pub seqs: (u8, u8),
 }
 
 pub fn run_tls(m: &TlsMaterial, c: &TlsCase) -> Result<TlsObs, String> {
@@ -41,7 +43,7 @@ pub fn run_tls(m: &TlsMaterial, c: &TlsCase) -> Result<TlsObs, String> {
     let conn = rustls::ClientConnection::new(cfg, tls::server_name()).map_err(|e| e.to_string())?;
     let caps = 0x003f_a685 | wire::CLIENT_SSL;
     let sslreq = wire::ssl_request(caps, 1 << 24, 0x21);
-    let (mut app, _) = wire::frame(&wire::handshake41(caps, 1 << 24, 0x21, &c.user, b"\0"), 2);
+    let (mut app, _) = wire::frame(&wire::handshake41(caps, 1 << 24, 0x21, &c.user, b"\0"), c.seqs.1);
     for cmd in &c.cmds {
         app.extend(wire::frame(&cmd.payload, cmd.seq).0);
     }
@@ -53,6 +55,7 @@ pub fn run_tls(m: &TlsMaterial, c: &TlsCase) -> Result<TlsObs, String> {
     w.cycle = c.cycle.clone();
     w.write_limit = c.write_limit;
     w.close_notify = c.close_notify;
+    w.ssl_seq = c.seqs.0;
     let clock = w.clock.clone();
     let world = Rc::new(RefCell::new(w));
     let (mut shim, log) = ScriptShim::new(clock, c.scripts.clone());
@@ -106,7 +109,20 @@ fn tls_script(rng: &mut Rng, ncmd: usize) -> (Vec<Cmd>, Vec<Script>) {
             }
             2 => {
                 cmds.push(Cmd::query(format!("select {} {}", k, String::from_utf8_lossy(CANARY_QUERY)).as_bytes()));
-                scripts.push(Script::Q(QProg::completed(k as u64, 1)));
+                if rng.chance(1, 3) {
+                    // a reply far larger than one TLS record and than rustls' 64 KiB plaintext queue
+                    let nr = rng.range(80, 400) as usize;
+                    let mut ops = vec![QOp::Start(0)];
+                    for r in 0..nr {
+                        let mut cell = CANARY_VALUE.to_vec();
+                        cell.extend(std::iter::repeat(b'a' + (r % 26) as u8).take(1000));
+                        ops.push(QOp::Row(vec![Cell::val(V::Bytes(cell))], RowForm::Owned));
+                    }
+                    ops.push(QOp::Finish);
+                    scripts.push(Script::Q(QProg { colsets: vec![vec![col.clone()]], ops, on_err: OnErr::Drop }));
+                } else {
+                    scripts.push(Script::Q(QProg::completed(k as u64, 1)));
+                }
             }
             _ => {
                 cmds.push(Cmd::query(format!("rows {} {}", k, String::from_utf8_lossy(CANARY_QUERY)).as_bytes()));
@@ -242,6 +258,9 @@ fn judge(m: &TlsMaterial, c: &TlsCase, o: &TlsObs, rep: &mut Report, d: &dyn Fn(
         return;
     }
     rep.counters.inc("connections_compared_with_plaintext");
+    if o.world.app_in.len() > 70_000 {
+        rep.counters.inc("connections_with_reply_over_64k");
+    }
     rep.counters.add("commands_served_over_tls", tcb.len() as u64);
     if o.world.reads.iter().any(|&(at, n)| at < o.world.tls_from && at + n > o.world.tls_from) {
         rep.counters.inc("connections_where_sslrequest_and_clienthello_shared_a_read");
@@ -291,7 +310,7 @@ pub fn run(ctx: &Ctx) -> Report {
         if quit {
             cmds.push(Cmd::quit());
         }
-        let c = TlsCase { tls13, with_cert, server_mode: mode, user: CANARY_USER.to_vec(), cmds, scripts, first_cut: cut, cycle: vec![], write_limit: usize::MAX, close_notify: true, app_override: None };
+        let c = TlsCase { tls13, with_cert, server_mode: mode, user: CANARY_USER.to_vec(), cmds, scripts, first_cut: cut, cycle: vec![], write_limit: usize::MAX, close_notify: true, app_override: None, seqs: (1, 2) };
         let o = match run_tls(mref, &c) {
             Ok(o) => o,
             Err(e) => {
@@ -334,7 +353,7 @@ pub fn run(ctx: &Ctx) -> Report {
             cmds.push(Cmd::quit());
         }
         let first_cut = if rng.bool() { rng.range(1, 60) as usize } else { 0 };
-        let c = TlsCase { tls13, with_cert, server_mode: mode, user: CANARY_USER.to_vec(), cmds, scripts, first_cut, cycle, write_limit: wl, close_notify, app_override: None };
+        let c = TlsCase { tls13, with_cert, server_mode: mode, user: CANARY_USER.to_vec(), cmds, scripts, first_cut, cycle, write_limit: wl, close_notify, app_override: None, seqs: (1, 2) };
         let o = match run_tls(mref, &c) {
             Ok(o) => o,
             Err(e) => {
@@ -357,7 +376,7 @@ pub fn run(ctx: &Ctx) -> Report {
     let r = par_cases(ctx, "C18", "refusals", n, |rng, i, rep| {
         let mode = if i % 2 == 0 { 3 } else { 1 };
         let (cmds, scripts) = tls_script(rng, 2);
-        let c = TlsCase { tls13: rng.bool(), with_cert: false, server_mode: mode, user: CANARY_USER.to_vec(), cmds, scripts, first_cut: rng.below(80) as usize, cycle: if rng.bool() { vec![] } else { vec![rng.range(1, 40) as usize] }, write_limit: usize::MAX, close_notify: true, app_override: None };
+        let c = TlsCase { tls13: rng.bool(), with_cert: false, server_mode: mode, user: CANARY_USER.to_vec(), cmds, scripts, first_cut: rng.below(80) as usize, cycle: if rng.bool() { vec![] } else { vec![rng.range(1, 40) as usize] }, write_limit: usize::MAX, close_notify: true, app_override: None, seqs: (1, 2) };
         let o = match run_tls(mref, &c) {
             Ok(o) => o,
             Err(e) => {
@@ -376,6 +395,7 @@ pub fn run(ctx: &Ctx) -> Report {
         rep.require("canary_scans", 100);
         rep.require("connections_where_sslrequest_and_clienthello_shared_a_read", 10);
         rep.require("refusals_checked", 10);
+        rep.require("connections_with_reply_over_64k", 10);
         rep.require("client_cert_chains_compared", 10);
     }
     rep
